@@ -54,6 +54,17 @@ CLAIMED = {
         "every run. sscanf (%d, %2hhx) is modelled after glibc and compared on every run; event bindings are not modelled. Trusted: Coq kernel; model PenDefs.v; "
         "tools/tables/colours.py; extraction.",
    design="6/C19", technique="Coq algebraic laws on a record model with explicit bit-field wraps; refinement of histories to a dictionary spec; grammar recogniser proved sound against the parser; differential check; extracted dictionary checker as oracle"),
+ "C16": dict(
+   text="Machine-checked proof (Coq 8.16, no axioms) that for EVERY handler environment (handlers that bind, unbind and emit re-entrantly at any depth), "
+        "every history of bind (all flags) / unbind / emit / emit-whilefalse / destroy and every fuel for which the run completes, the trace of the model of "
+        "src/bindings.c (tombstones, iteration guard, deferred sweep) is accepted by a reference monitor over a plain list of live bindings with immediate "
+        "removal (C16_trace_accepted), with corollaries C16_only_live, C16_once_in_order, C16_all_served, C16_unbind_once, C16_destroy, C16_ids_unique, "
+        "C16_sweep, C16_no_fault and the refinement C16_refines (log equality with a tombstone-free machine). Tie: ~340k histories per quick run (exhaustive "
+        "small scopes + random), direct calls and through TickitTerm/TickitPen, under ASan/UBSan with list dumps; the extracted monitor judges the C's own traces.",
+   note="Holds for the repaired code (fix: c45b938, c87ed4c, 8540d45, 1cbdd4b); pinned behaviour refuted in Coq (C16_oneshot_*_refuted), witnesses replayed "
+        "every run. 'Newest first' is read as reverse list order (man/tickit.7). Assumes event numbers >= 0 and destroy only at top level; no termination "
+        "theorem (a handler that re-binds itself on every call loops in C and model alike). Trusted: Coq kernel; model BindDefs.v; monitor BindSpec.v; extraction.",
+   design="6/C16", technique="Coq fuelled re-entrant interpreter over a Section-variable handler environment; simulation proof against a reference monitor; extracted-model vs C differential check; extracted monitor as oracle"),
 }
 
 NA_REASON = "not yet built in this revision: model/proof/correspondence for this property are scheduled (DESIGN.md section 10)"
